@@ -107,6 +107,10 @@ func (d *Reader) Close() error {
 //
 // At EOF, count is 0 and err is io.EOF (unless len(p) is zero).
 func (d *Reader) Read(p []byte) (n int, err error) {
+	if d.err != nil {
+		return 0, d.err
+	}
+
 	switch {
 	case d.r.Err() == io.EOF && d.state.pos < d.header.size:
 		d.err = io.ErrUnexpectedEOF
@@ -137,6 +141,11 @@ func (d *Reader) Read(p []byte) (n int, err error) {
 		i = (d.state.r - d.decodePosition() - 1) & (_N - 1)
 		j = c - 255 + _Threshold
 		for k = 0; k < j; k++ {
+			if d.state.pos >= d.header.size {
+				// The stream encodes more data than the header declares.
+				d.err = ErrChecksum
+				return n, nil
+			}
 			c = int(d.z.textBuf[(i+k)&(_N-1)])
 			if n < len(p) {
 				p[n] = byte(c)
